@@ -82,6 +82,8 @@ RuleU == {Clause(h, bd) : h \in Heads, bd \in BodiesR} \cup {Fact(h) : h \in Hea
 (* ------------------------------ strings (C18) --------------------------- *)
 Alphabet == <<"a", "B", "1", "0", "$", "_", "(", ")", "[", "]", ",", ";", "|", ".", " ", "=", "<", ">",
               "+", "-", "\"", "\\", ":", "é">>
+(* multi-character tokens, inserted / substituted by the text mutations          *)
+Tokens == <<" = ", " :- ", " ; ", ", ", "()", "[]", "$_", " == ", " + ", "not(", "$X", "\\,", "| $T", "!.", "1.5">>
 Sym == {Alphabet[i] : i \in DOMAIN Alphabet}
 Strings3 == {""} \cup Sym \cup {x \o y : x \in Sym, y \in Sym} \cup {x \o y \o z : x \in Sym, y \in Sym, z \in Sym}
 Prefixes == {x \o y \o z : x \in Sym, y \in Sym, z \in Sym}
@@ -141,7 +143,7 @@ Case ==
       [] it.kind = "string" -> [t |-> "syn-string", text |-> it.text, path |-> <<"string">>]
       [] it.kind = "family" -> [t |-> "syn-family", text |-> it.text, alphabet |-> Alphabet,
                                 extra |-> IF Thorough THEN 2 ELSE 1, path |-> <<"family">>]
-      [] OTHER -> [t |-> "syn-seed", text |-> it.text, alphabet |-> Alphabet,
+      [] OTHER -> [t |-> "syn-seed", text |-> it.text, alphabet |-> Alphabet \o Tokens,
                    depth |-> IF Thorough THEN 2 ELSE 1, path |-> <<"seed">>]
 Emit == Done => PrintT(<<"CASE", ToJson(Case)>>)
 
